@@ -26,11 +26,11 @@ Proof.
   - destruct (queued (get h k0)).
     + destruct (keep_this C _ k0 true) as [go o2] eqn:K.
       pose proof (quiet_keep C (upd h k0 (set_pst (get h k0) ConnectionStateReceivedPairingRequest)) k0 true) as Q.
-      rewrite K in Q. cbn [snd] in Q. destruct Q as (_ & _ & Q & _).
-      destruct go; cbn [snd]; rewrite !ccreates_app, Q; cbn; intros [].
+      rewrite K in Q. cbn [snd] in Q. pose proof (quiet_regclose C _ Q) as (_ & _ & Q' & _). destruct Q as (_ & _ & Q & _).
+      destruct go; cbn [snd]; rewrite !ccreates_app, ?Q', Q; cbn; intros [].
     + destruct (keep_this C h k0 true) as [go o2] eqn:K.
-      pose proof (quiet_keep C h k0 true) as Q. rewrite K in Q. cbn [snd] in Q. destruct Q as (_ & _ & Q & _).
-      destruct go; cbn [snd]; rewrite !ccreates_app, Q; cbn; intros [].
+      pose proof (quiet_keep C h k0 true) as Q. rewrite K in Q. cbn [snd] in Q. pose proof (quiet_regclose C _ Q) as (_ & _ & Q' & _). destruct Q as (_ & _ & Q & _).
+      destruct go; cbn [snd]; rewrite !ccreates_app, ?Q', Q; cbn; intros [].
   - intros [].
   - intros [].
   - cbn [snd]. destruct (negb completed && negb _); [intros []|].
@@ -43,8 +43,8 @@ Proof.
   - destruct (N.eqb (s_dialing (get h k0)) 0) eqn:D; [intros []|].
     destruct (keep_this C _ k0 false) as [go o2] eqn:K.
     pose proof (quiet_keep C (upd h k0 (set_dialing (get h k0) (N.pred (s_dialing (get h k0))))) k0 false) as Q.
-    rewrite K in Q. cbn [snd] in Q. destruct Q as (_ & _ & Q & _).
-    destruct go; cbn [snd]; rewrite !ccreates_app, Q.
+    rewrite K in Q. cbn [snd] in Q. pose proof (quiet_regclose C _ Q) as (_ & _ & Q' & _). destruct Q as (_ & _ & Q & _).
+    destruct go; cbn [snd]; rewrite !ccreates_app, ?Q', Q.
     + cbn. intros [<-|[]]. exists c. split; [reflexivity|exact D].
     + rewrite (proj1 (proj2 (proj2 (quiet_reannounce C _)))). intros [].
   - destruct (N.eqb (s_dialing (get h k0)) 0); [intros []|].
